@@ -34,35 +34,28 @@ def ensure_deps():
 
 
 def spawn_workers(pid, cases, nworkers, case_timeout, wall_budget, workdir):
+    """Dynamic pool: the cases are cut into small chunks; up to `nworkers` worker subprocesses run at a time, each on one chunk.
+    A chunk whose worker died (segfault/OOM inside XLA) is retried once in a fresh process, its unfinished cases only."""
     os.makedirs(workdir, exist_ok=True)
-    chunks = [[] for _ in range(nworkers)]
-    for i, c in enumerate(cases):
-        chunks[i % nworkers].append([i, c])
-    procs = []
+    per = max(1, min(24, -(-len(cases) // (nworkers * 3))))
+    todo = []
+    idx = list(range(len(cases)))
+    for k in range(0, len(idx), per):
+        todo.append({"id": len(todo), "items": [[i, cases[i]] for i in idx[k:k + per]], "try": 0})
     wenv = env.worker_env()
-    for k, ch in enumerate(chunks):
-        if not ch:
-            continue
-        cf = os.path.join(workdir, f"chunk_{k}.json")
-        of = os.path.join(workdir, f"out_{k}.jsonl")
-        ef = os.path.join(workdir, f"err_{k}.txt")
-        with open(cf, "w") as f:
-            json.dump({"cases": ch, "case_timeout": case_timeout}, f)
-        p = subprocess.Popen([PY, "-m", "jxmon.worker", pid, cf, of], env=wenv, cwd=ROOT,
-                             stdout=subprocess.DEVNULL, stderr=open(ef, "w"))
-        procs.append((p, of, ef, k))
     deadline = time.time() + wall_budget
-    timed_out = []
-    for p, of, ef, k in procs:
-        try:
-            p.wait(timeout=max(1.0, deadline - time.time()))
-        except subprocess.TimeoutExpired:
-            p.kill()
-            p.wait()
-            timed_out.append(k)
-    results, mech, crashed = {}, [], []
-    for p, of, ef, k in procs:
-        done = False
+    running, results, mech, timed_out, crashed = [], {}, [], [], []
+
+    def launch(ch):
+        tag = f"{ch['id']}_{ch['try']}"
+        cf, of, ef = (os.path.join(workdir, f"{n}_{tag}") for n in ("chunk.json", "out.jsonl", "err.txt"))
+        with open(cf, "w") as f:
+            json.dump({"cases": ch["items"], "case_timeout": case_timeout}, f)
+        p = subprocess.Popen([PY, "-m", "jxmon.worker", pid, cf, of], env=wenv, cwd=ROOT, stdout=subprocess.DEVNULL, stderr=open(ef, "w"))
+        running.append((p, ch, of, ef))
+
+    def harvest(p, ch, of, ef):
+        done, got = False, set()
         if os.path.exists(of):
             with open(of) as f:
                 for line in f:
@@ -78,14 +71,38 @@ def spawn_workers(pid, cases, nworkers, case_timeout, wall_budget, workdir):
                         done = True
                     else:
                         results[r["i"]] = r
-        if not done and k not in timed_out:
+                        got.add(r["i"])
+        if not done:
+            rest = [it for it in ch["items"] if it[0] not in got]
             tail = ""
             try:
                 with open(ef) as f:
                     tail = f.read()[-1500:]
             except Exception:
                 pass
-            crashed.append({"worker": k, "rc": p.returncode, "stderr_tail": tail})
+            if rest and ch["try"] == 0 and time.time() < deadline:
+                # the case the worker died in goes last, so that the others are not lost with it again
+                todo.append({"id": ch["id"], "items": rest[1:] + rest[:1], "try": 1})
+            elif rest:
+                crashed.append({"chunk": ch["id"], "rc": p.returncode, "lost_cases": [it[0] for it in rest], "stderr_tail": tail})
+
+    while todo or running:
+        while todo and len(running) < nworkers and time.time() < deadline:
+            launch(todo.pop(0))
+        if not running:
+            break
+        time.sleep(0.2)
+        for item in list(running):
+            p = item[0]
+            if p.poll() is not None:
+                running.remove(item)
+                harvest(*item)
+            elif time.time() > deadline:
+                p.kill()
+                p.wait()
+                running.remove(item)
+                timed_out.append(item[1]["id"])
+                harvest(*item)
     return results, mech, timed_out, crashed
 
 
@@ -205,7 +222,7 @@ def run(pid, tier, seed, replay=None, nworkers=None, keep=False):
         for r in reasons:
             lines.append(f"INCONCLUSIVE property={pid} {r}")
         for c in crashed[:2]:
-            lines.append(f"  worker {c['worker']} rc={c['rc']} stderr: {c['stderr_tail'][-800:]}")
+            lines.append(f"  chunk {c['chunk']} rc={c['rc']} lost cases {c['lost_cases'][:6]} stderr: {c['stderr_tail'][-800:]}")
 
     wall = time.time() - t0
     nontrivial = sorted(s for s, nt in sigs.items() if nt)
